@@ -26,6 +26,20 @@ pub enum Payload {
     Type(Type),
     /// a TLV section; the cursor is advanced by `next()` this many times before it is written
     Tlvs(Vec<u8>, usize),
+    /// not a value of the crate: one direct `io::Write::write` (then `flush`) on the writer
+    Raw(Vec<u8>),
+}
+
+/// `Writer` implements `io::Write`; this wraps one direct `write` + `flush` as a user-defined
+/// `WriteToHeader` value (the trait is public, so callers can do the same).
+pub struct RawWrite<'a>(pub &'a [u8]);
+
+impl<'a> WriteToHeader for RawWrite<'a> {
+    fn write_to(&self, writer: &mut Writer) -> io::Result<usize> {
+        let n = io::Write::write(writer, self.0)?;
+        io::Write::flush(writer)?;
+        Ok(n)
+    }
 }
 
 #[derive(Clone, Debug)]
@@ -124,6 +138,7 @@ pub fn payload_json(p: &Payload) -> Value {
         Payload::Type(t) => json!({"ty": "type", "name": type_name(*t)}),
         Payload::Tlvs(b, 0) => json!({"ty": "tlvs", "v": rl(b)}),
         Payload::Tlvs(b, adv) => json!({"ty": "tlvs", "v": rl(b), "adv": adv}),
+        Payload::Raw(b) => json!({"ty": "raw", "v": rl(b)}),
     }
 }
 
@@ -135,6 +150,7 @@ pub fn payload_from(v: &Value) -> Payload {
         "pair" => Payload::Pair(kind_from(&v["t"]), unrl(&v["v"])),
         "type" => Payload::Type(type_from(v["name"].as_str().unwrap())),
         "tlvs" => Payload::Tlvs(unrl(&v["v"]), v.get("adv").and_then(|a| a.as_u64()).unwrap_or(0) as usize),
+        "raw" => Payload::Raw(unrl(&v["v"])),
         ty => Payload::Int { ty: ty.to_string(), neg: v["neg"].as_bool().unwrap(), mag: unflat(&v["mag"]) },
     }
 }
@@ -222,6 +238,7 @@ fn with_dyn<R>(p: &Payload, f: &mut dyn FnMut(&dyn WriteToHeader) -> R) -> R {
         },
         Payload::Type(t) => f(t),
         Payload::Tlvs(b, adv) => f(&advanced(b, *adv)),
+        Payload::Raw(b) => f(&RawWrite(b.as_slice())),
     }
 }
 
@@ -264,6 +281,7 @@ fn write_one(b: Builder, p: &Payload) -> io::Result<Builder> {
         },
         Payload::Type(t) => b.write_payload(*t),
         Payload::Tlvs(v, adv) => b.write_payload(advanced(v, *adv)),
+        Payload::Raw(v) => b.write_payload(RawWrite(v.as_slice())),
     }
 }
 
@@ -275,6 +293,7 @@ fn write_many(b: Builder, ps: &[Payload], lazy: bool) -> io::Result<Builder> {
         I8(i8), I16(i16), I32(i32), I64(i64), I128(i128), Isize(isize),
         Slice(&'a [u8]), Addr(v2::Addresses), Tlv(TypeLengthValue<'a>),
         PairRaw((u8, &'a [u8])), PairNamed((Type, &'a [u8])), Type(Type), Tlvs(TypeLengthValues<'a>),
+        Raw(RawWrite<'a>),
     }
     let held: Vec<Held> = ps
         .iter()
@@ -305,6 +324,7 @@ fn write_many(b: Builder, ps: &[Payload], lazy: bool) -> io::Result<Builder> {
             },
             Payload::Type(t) => Held::Type(*t),
             Payload::Tlvs(v, adv) => Held::Tlvs(advanced(v, *adv)),
+            Payload::Raw(v) => Held::Raw(RawWrite(v.as_slice())),
         })
         .collect();
     let refs: Vec<&dyn WriteToHeader> = held
@@ -315,7 +335,7 @@ fn write_many(b: Builder, ps: &[Payload], lazy: bool) -> io::Result<Builder> {
                 Held::U128(x) => x, Held::Usize(x) => x, Held::I8(x) => x, Held::I16(x) => x,
                 Held::I32(x) => x, Held::I64(x) => x, Held::I128(x) => x, Held::Isize(x) => x,
                 Held::Slice(x) => x, Held::Addr(x) => x, Held::Tlv(x) => x, Held::PairRaw(x) => x,
-                Held::PairNamed(x) => x, Held::Type(x) => x, Held::Tlvs(x) => x,
+                Held::PairNamed(x) => x, Held::Type(x) => x, Held::Tlvs(x) => x, Held::Raw(x) => x,
             }
         })
         .collect();
@@ -1103,6 +1123,25 @@ pub fn generate_writer(name: &str, count: usize, rng: &mut Rng, out: &mut dyn Wr
                 let pre = vec![0x11u8; pre_len];
                 let ps = vec![random_payload(rng, false), random_payload(rng, false)];
                 n += run_writer(&format!("wlimit-{}", i), &json!({"g": "wlimit"}), &pre, &ps, out);
+            }
+        }
+        "wraw" => {
+            // direct io::Write::write calls on one persistent writer, mixed with ordinary values,
+            // up to and beyond the writer's size limit
+            for i in 0..count {
+                let mut ps = Vec::new();
+                let steps = 3 + rng.below(6);
+                for _ in 0..steps {
+                    if rng.chance(2, 3) {
+                        let len = *rng.pick(&[0usize, 1, 2, 15, 16, 100, 4096, 30000, 65535, 65536, 70000]);
+                        let fill = rng.next() as u8;
+                        ps.push(Payload::Raw(vec![fill; len]));
+                    } else {
+                        ps.push(random_payload(rng, false));
+                    }
+                }
+                ps.push(Payload::Raw(Vec::new()));
+                n += run_writer_persistent(&format!("wraw-{}", i), &json!({"g": "wraw"}), &ps, out);
             }
         }
         other => panic!("unknown writer generator {}", other),
